@@ -144,8 +144,10 @@ def execute(case, scratch):
         out.nontrivial = (len(levels) >= 2 and overlap) or cached_parent
         out.labels = ["backend:" + case["backend"], "chain:%d" % len(levels)] + \
             ["prov:" + lv["parent_from"] for lv in levels[1:]] + sorted({"staging:" + lv["staging"] for lv in levels}) + \
-            (["overlap"] if overlap else [])
-        out.nt_key = [[(lv["staging"], lv.get("parent_from"), sorted(lv["own"]), lv.get("reopen_check", True)) for lv in levels], case["backend"]]
+            (["overlap"] if overlap else []) + \
+            (["published-under-override-key"] if any(lv.get("publish") for lv in levels) else []) + \
+            (["two-levels-under-one-override-key"] if len([lv for lv in levels if lv.get("publish") == "pub/ds"]) >= 2 else [])
+        out.nt_key = [[(lv["staging"], lv.get("parent_from"), sorted(lv["own"]), lv.get("reopen_check", True), lv.get("publish")) for lv in levels], case["backend"]]
         return out
     finally:
         rt.PART_LEVELS[:] = []
@@ -166,11 +168,14 @@ def strategy():
     @st.composite
     def case(draw):
         n = draw(st.sampled_from([1, 2, 2, 3, 3, 4, 5]))
+        pub = draw(st.integers(0, 3)) == 0   # levels published under override keys, mostly one and the same
         levels = []
         for i in range(n):
             lv = {"staging": draw(st.sampled_from(["impart", "impart", "impart_dd", "odpart"] + (["passthrough"] if i > 0 else []))),
                   "own": draw(st.dictionaries(keys, val, max_size=3)),
                   "reopen_check": draw(st.sampled_from([True, False]))}
+            if pub and lv["staging"] != "passthrough":
+                lv["publish"] = draw(st.sampled_from(["pub/ds", "pub/ds", "pub/other"]))
             if i > 0:
                 lv["parent_from"] = draw(st.sampled_from(["first-call", "disk", "cache", "cache"]))
             levels.append(lv)
